@@ -20,6 +20,9 @@ PLUMBING = (
     ("pennylane/core/transforms/transform.py", "_apply_to_tape", "obj", "T"),
     ("pennylane/core/transforms/transform.py", "_apply_to_sequence", "obj", "CT"),
     ("pennylane/core/transforms/compile_pipeline.py", "CompilePipeline.__call_tapes", "tapes", "CT"),
+    ("pennylane/tape/tape.py", "rotations_and_diagonal_measurements", "tape", "T"),
+    ("pennylane/tape/tape.py", "_validate_computational_basis_sampling", "tape", "T"),
+    ("pennylane/io/to_openqasm.py", "_tape_openqasm", "tape", "T"),
 )
 # named accepted sites (rule, function, normalised statement) -> reason; confirmed by reading and by a run-time probe
 ACCEPTED = {
@@ -142,7 +145,7 @@ def check(ctx):
             rep.proved("R-C18-effect", f"{rel}:{qual}", "transform application plumbing does not write to the tapes it is given")
         for s in live:
             rep.refuted("R-C18-effect", rel, qual, s.node, f"the transform-application machinery {s.why}", line=s.line)
-    rep.floor("transform-application plumbing functions", n_pl, 3)
+    rep.floor("transform-application plumbing functions", n_pl, 6)
     rep.extra["engine"] = dict(eng.stats, call_depth=depth, functions_summarised=len(eng.functions_seen))
     rep.floor("functions analysed or summarised by E2", len(eng.functions_seen), 150)
     return rep
